@@ -93,5 +93,10 @@ def run(ctx):
     nm = efreelist.check_allocation_mark(ctx, F)
     ctx.floor("E-FREELIST.mark", "writers of the allocation mark", nm, 1)
     ecanon.check_id_split(ctx, F)
+    ctx.explain("E-FREELIST.link: return_preallocated (session end) is interpreted on a model (chunk size 8): the unused rest of "
+                "the chunk is linked slot by slot in front of the thread's own free list, the head (slot index + TERMINALS) is "
+                "published, an empty list is not, the node-count delta is moved out, the allocation mark is untouched.")
+    nl = efreelist.check_return_links(ctx, F)
+    ctx.floor("E-FREELIST.link", "interpreted hand-back situations", nl, 5)
     ctx.not_decided = ("exactness of counts over histories; the unsafe internals of the managers; "
                        "capacity restoration after gc")
